@@ -83,7 +83,7 @@ def run(prog, ctx):
     if len(loops) != 1:
         raise Inconclusive("token loop of the option parser not recognised")
     loop = loops[0]
-    hb = [b for b in cfg.blocks.values() if b.term is loop][0].id
+    hb = cfg.loop_header(loop)
     edges = option_edges(f)
     code_names = {}
     for L, e in edges.items():
@@ -166,7 +166,7 @@ def run(prog, ctx):
                          "a second %s= item keeps counting from the first list: the new array's leading slots are never filled and "
                          "econf_free() crashes on them" % n, key="counter:%s" % n)
     # ---- O3 ---------------------------------------------------------------------------------------------------
-    body_entry = cfg.blocks[hb].succs[0]
+    body_entry = cfg.loop_body_entry(loop)
     region = cfg.reachable(body_entry, avoid_edges=match_edges, avoid_blocks=[hb])
     rets = [r for r in f.returns() if cfg.block_of(r) in region]
     consts = set(query.returned_constant(r) for r in rets)
